@@ -22,6 +22,9 @@ abbrev Name := Nat
 
 inductive Atom where
   | none | int (i : Int) | str (cs : List Nat)       -- str = list of code points (Python compares strings by code point)
+  | unc (id : Nat)                                   -- an object `copy.deepcopy` cannot duplicate (a `threading.Lock`, a generator, an instance
+                                                     -- whose `__deepcopy__` raises): opaque, hashable by identity, compared by identity (`id`),
+                                                     -- never counted as a mutable node; `deepcopy` of any value that holds one raises TypeError
 deriving DecidableEq, Repr
 
 inductive Kind where
@@ -179,6 +182,25 @@ def deepcopyL : List Obj → Nat → List Obj × Nat
       (x' :: xs', n2)
 end
 
+mutual
+/-- can `copy.deepcopy` duplicate the value at all?  Not if an un-deep-copyable object (`Atom.unc`) sits anywhere inside it — in a list, as a
+    dict key or value, in a tuple / set / frozenset, in an attribute of an object, in a field of a nested frozen instance: the traversal reaches
+    it and the TypeError it raises there propagates through every enclosing `deepcopy` call -/
+def Obj.copyable : Obj → Bool
+  | .atom (.unc _) => false
+  | .atom _ => true
+  | .tup _ items => copyableL items
+  | .box _ _ items => copyableL items
+def copyableL : List Obj → Bool
+  | [] => true
+  | x :: xs => x.copyable && copyableL xs
+end
+
+/-- does the `deepcopy(...)` call of a copy method raise for this value?  It does for a value that cannot be deep-copied, **provided the call
+    is the bare `copy.deepcopy`** (generated fact `deepcopyBare`: the name is the one imported from `copy`, the call is not inside a `try`);
+    otherwise the model cannot tell what the call does with such a value and takes the pessimistic reading: the value itself comes back -/
+def deepcopyRaises (v : Obj) : Bool := !v.copyable && deepcopyBare
+
 def strLt : List Nat → List Nat → Bool
   | [], [] => false
   | [], _ :: _ => true
@@ -298,6 +320,27 @@ def layerDefOk (l : Layer) (rest : Cls) : Bool :=
 def defOk : Cls → Bool
   | [] => true
   | l :: rest => defOk rest && layerDefOk l rest
+
+/-- features of a class statement that make `dataclasses.dataclass` refuse the definition (TypeError, no class is created), depending on the
+    options it is called with: a base class that is an ordinary **non-frozen** `@dataclass` ("cannot inherit frozen dataclass from a non-frozen
+    one") when `frozen=True`; a `__lt__` defined in the class body ("Cannot overwrite attribute __lt__") when `order=True`; a `__slots__` in the
+    class body ("already specifies __slots__") when `slots=True` -/
+inductive Hazard where
+  | none | nonFrozenDataclassBase | ownLt | ownSlots
+deriving DecidableEq, Repr
+
+/-- does `dataclass(...)`, called with the options the decorator derives from the parameters written at this class statement, refuse it? -/
+def Hazard.refused (h : Hazard) (l : Layer) : Bool :=
+  match h with
+  | .none => false
+  | .nonFrozenDataclassBase => l.frozen
+  | .ownLt => l.effOrder
+  | .ownSlots => l.effSlots
+
+/-- class-definition time, with the hazards of every class statement of the chain -/
+def defOkH : Cls → List Hazard → Bool
+  | [], _ => true
+  | l :: rest, hs => defOkH rest hs.tail && layerDefOk l rest && !(l.decorated && (hs.headD .none).refused l)
 
 def nodupNames : List Name → Bool
   | [] => true
@@ -510,7 +553,8 @@ def readCur (deep initOnly : Bool) (self : Inst) : List FieldR → Nat → Excep
     match self.fields.lookup f.name with
     | none => .error .attributeError
     | some v =>
-      let (v', n1) := if deep then deepcopy v n else (v, n)
+      if deep && deepcopyRaises v then .error .typeError else       -- the TypeError of `deepcopy` propagates: no instance
+      let (v', n1) := if deep && v.copyable then deepcopy v n else (v, n)
       match readCur deep initOnly self fs n1 with
       | .error e => .error e
       | .ok (r, n2) => .ok ((f.name, v') :: r, n2)
@@ -616,6 +660,22 @@ def ltOp (a b : Inst) : Except Exc Bool :=
       | .error e, _ => .error e
       | _, .error e => .error e
   else .error .typeError
+
+/-- `a <= b` (`_cmp_fn` with `<=`; `a > b` / `a >= b` are `b < a` / `b <= a`): Python compares the tuples of fields, and for the values of this
+    universe a tuple is `<=` another iff it is `<` or equal to it (the first pair of items that are not equal decides with its own `<=`, which
+    for unequal ints / strs / lists / sets is `<`; tuples without such a pair compare by length) -/
+def leOp (a b : Inst) : Except Exc Bool :=
+  match ltOp a b with
+  | .error e => .error e
+  | .ok true => .ok true
+  | .ok false =>
+    match orderPart a.cls with
+    | none => .error .typeError
+    | some oc =>
+      match tupleOf a (cmpFields oc), tupleOf b (cmpFields oc) with
+      | .ok ta, .ok tb => .ok (veqL ta tb)
+      | .error e, _ => .error e
+      | _, .error e => .error e
 
 /-! ## heap invariant -/
 
